@@ -762,6 +762,9 @@ func (w *World) fieldMutations(within map[*ssa.Function]bool) map[string][]field
 						if _, fresh := fa.X.(*ssa.Alloc); fresh {
 							continue // initialisation of an object allocated in this function
 						}
+						if _, local := w.callLocalObjects(fa.X, 0); local {
+							continue // an object that one call allocates, hands down and drops (locals.go): nothing survives the call
+						}
 						if pt, ok := fa.X.Type().Underlying().(*types.Pointer); ok {
 							if n, ok := pt.Elem().(*types.Named); ok && n.Obj().Pkg() == w.TPkg {
 								k := n.Obj().Name() + "." + w.fieldName(n.Obj().Name(), fa.Field)
@@ -780,6 +783,9 @@ func (w *World) fieldMutations(within map[*ssa.Function]bool) map[string][]field
 					// scratch array) is mutated through its address: handing the address to
 					// a call, boxing it in an interface or storing it keeps state in the field
 					if _, fresh := x.X.(*ssa.Alloc); fresh {
+						continue
+					}
+					if _, local := w.callLocalObjects(x.X, 0); local {
 						continue
 					}
 					pt, ok := x.X.Type().Underlying().(*types.Pointer)
